@@ -164,6 +164,13 @@ pub struct Shadow {
     pub c12_window_checked: u64,
     pub ebr: crate::ebrmon::EbrMirror,
     /// C12 directed sweep: observed decision for the watched child
+    /// properties that ownership-exactness violations are *also* attributed to in this family
+    /// (C08 for AtomicRc cell workloads, C09 for AtomicWeak cell workloads)
+    pub strong_extra: &'static str,
+    pub weak_extra: &'static str,
+    /// leaks (objects, blocks, deferred functions) are also attributed to this (C20 in the
+    /// thread tear-down families: "without leaking the garbage that thread produced")
+    pub leak_extra: &'static str,
     pub debug_watch: Option<u32>,
     pub debug_last: u64,
     pub watch_obj: Option<u32>,
@@ -222,6 +229,9 @@ impl Shadow {
             c12_checked: 0,
             c12_window_checked: 0,
             ebr: crate::ebrmon::EbrMirror::default(),
+            strong_extra: "",
+            weak_extra: "",
+            leak_extra: "",
             debug_watch: std::env::var("VERIF_WATCH").ok().and_then(|s| s.parse().ok()),
             debug_last: 0,
             watch_obj: None,
@@ -322,7 +332,7 @@ impl Shadow {
         let ob = &mut self.objs[o as usize];
         if ob.dealloc > 0 {
             let det = format!("block of #{} already freed but {} returned a weak reference", o, how);
-            sim().violation("C03", "weak-acquire-after-free", &format!("weak-acquire-after-free/{}", how), &det);
+            sim().violation(&format!("C03{}", self.weak_extra), "weak-acquire-after-free", &format!("weak-acquire-after-free/{}", how), &det);
         }
         ob.weak += 1;
     }
@@ -402,7 +412,8 @@ impl Shadow {
             let held = self.holdings.iter().find(|h| h.obj == o && !h.weak).copied();
             if ob.strong > 0 {
                 let det = format!("#{} destructed ({}) while {} counted strong owner(s) exist{}", o, path_name(depth), ob.strong, if held.is_some() { " and a live Snapshot refers to it" } else { "" });
-                sim().violation(if held.is_some() { "C01,C02" } else { "C01" }, "destruct-while-owned", &format!("destruct-while-owned/{}", path_name(depth)), &det);
+                let props = format!("{}{}", if held.is_some() { "C01,C02" } else { "C01" }, self.strong_extra);
+                sim().violation(&props, "destruct-while-owned", &format!("destruct-while-owned/{}", path_name(depth)), &det);
             }
             if let Some(h) = held {
                 let det = format!(
@@ -481,12 +492,13 @@ impl Shadow {
         ob.dealloc = 1;
         if ob.drop == 0 {
             let det = format!("block of #{} freed before its destructor ran (strong tokens {}, weak tokens {})", o, ob.strong, ob.weak);
-            let p = if ob.strong > 0 { "C01" } else { "C04" };
-            sim().violation(p, "free-before-drop", "free-before-drop", &det);
+            // the block went although the object (which holds an implicit weak share) still exists
+            let p = format!("{},C03{}", if ob.strong > 0 { "C01" } else { "C04" }, self.weak_extra);
+            sim().violation(&p, "free-before-drop", "free-before-drop", &det);
         }
         if ob.weak > 0 {
             let det = format!("block of #{} freed while {} weak owner(s) exist", o, ob.weak);
-            sim().violation("C03", "free-while-weak-owned", "free-while-weak-owned", &det);
+            sim().violation(&format!("C03{}", self.weak_extra), "free-while-weak-owned", "free-while-weak-owned", &det);
         }
         if let Some(h) = self.holdings.iter().find(|h| h.obj == o) {
             let det = format!(
@@ -510,16 +522,18 @@ impl Shadow {
                 let tag = match o.origin {
                     Origin::NewMany(0) => "origin=new_many0",
                     Origin::NewIter(0) => "origin=new_many_iter0",
-                    _ => "generic",
+                    Origin::NewMany(_) => "origin=new_many",
+                    Origin::NewIter(_) => "origin=new_many_iter",
+                    Origin::New => "generic",
                 };
-                leaks.push((if tag == "generic" { "C04" } else { "C04,C10" }, "leak-object", tag, format!("#{} never destructed after {} collection rounds (strong tokens {}, origin {:?})", o.id, rounds, o.strong, o.origin)));
+                leaks.push((if tag == "generic" { format!("C04{}{}", self.strong_extra, self.leak_extra) } else { "C04,C10".to_string() }, "leak-object", tag, format!("#{} never destructed after {} collection rounds (strong tokens {}, origin {:?})", o.id, rounds, o.strong, o.origin)));
             } else if o.dealloc != 1 {
                 let tag = if o.weak_many { "weak_many" } else { "generic" };
-                leaks.push((if tag == "generic" { "C04" } else { "C04,C10" }, "leak-block", tag, format!("block of #{} never freed after {} collection rounds (weak tokens {})", o.id, rounds, o.weak)));
+                leaks.push((if tag == "generic" { format!("C04{}{}", self.weak_extra, self.leak_extra) } else { "C04,C10".to_string() }, "leak-block", tag, format!("block of #{} never freed after {} collection rounds (weak tokens {})", o.id, rounds, o.weak)));
             }
         }
         for (p, k, tag, det) in leaks {
-            self.soft(p, &format!("{}/{}", k, tag), det);
+            self.soft(&p, &format!("{}/{}", k, tag), det);
         }
         let undropped: Vec<usize> = self.closures.iter().enumerate().filter(|(_, c)| c.executed == 1 && c.captured_drops != 1).map(|(i, _)| i).collect();
         if !undropped.is_empty() {
@@ -527,7 +541,8 @@ impl Shadow {
         }
         let lost: Vec<usize> = self.closures.iter().enumerate().filter(|(_, c)| c.executed == 0).map(|(i, _)| i).collect();
         if !lost.is_empty() {
-            self.soft("C15", "deferred-lost", format!("deferred function(s) {:?} never executed after {} collection rounds", lost, rounds));
+            let p = format!("C15{}", self.leak_extra);
+            self.soft(&p, "deferred-lost", format!("deferred function(s) {:?} never executed after {} collection rounds", lost, rounds));
         }
     }
 
@@ -746,7 +761,7 @@ impl Monitor for RcMonitor {
         for o in &sh.objs {
             if o.dealloc > 0 && addr >= o.addr && addr < o.addr + sh.block_size {
                 if addr == o.state_addr {
-                    return ("C03".into(), format!("count word of freed block of #{} accessed at {}", o.id, crate::sched::site_name(site_id)));
+                    return (format!("C03{}", sh.weak_extra), format!("count word of freed block of #{} accessed at {}", o.id, crate::sched::site_name(site_id)));
                 }
                 return ("C02".into(), format!("field of freed object #{} accessed at {}", o.id, crate::sched::site_name(site_id)));
             }
